@@ -4,6 +4,7 @@ package proto
 
 import (
 	"math"
+	"time"
 
 	"github.com/google/uuid"
 )
@@ -15,13 +16,14 @@ func vOfLeaf[T any](name string, inferable bool, mk func() ColumnOf[T], gen func
 		auto = nil
 	}
 	vBlockRoundTrip(vLeafSpec[T]{
-		name: name,
-		mk:   func() Column { return mk() },
-		gen:  gen,
-		app:  func(c Column, v T) { c.(ColumnOf[T]).Append(v) },
-		row:  func(c Column, i int) T { return c.(ColumnOf[T]).Row(i) },
-		eq:   eq,
-		auto: auto,
+		name:   name,
+		mk:     func() Column { return mk() },
+		gen:    gen,
+		app:    func(c Column, v T) { c.(ColumnOf[T]).Append(v) },
+		appArr: func(c Column, vs []T) { c.(ColumnOf[T]).AppendArr(vs) },
+		row:    func(c Column, i int) T { return c.(ColumnOf[T]).Row(i) },
+		eq:     eq,
+		auto:   auto,
 		emit: func(v T) {
 			switch x := any(v).(type) {
 			case bool:
@@ -35,18 +37,22 @@ func vOfLeaf[T any](name string, inferable bool, mk func() ColumnOf[T], gen func
 	})
 }
 
-func vGenStr() string   { return verifStr("s", verifIntRange("slen", verifParam("minstr", 0), verifParam("maxstr", 2))) }
-func vGenBytes() []byte { return verifBytes("s", verifIntRange("slen", verifParam("minstr", 0), verifParam("maxstr", 2))) }
-func vGenU64() uint64   { return verifU64("v") }
-func vGenU8() uint8     { return verifU8("v") }
+func vGenStr() string {
+	return verifStr("s", verifIntRange("slen", verifParam("minstr", 0), verifParam("maxstr", 2)))
+}
+func vGenBytes() []byte {
+	return verifBytes("s", verifIntRange("slen", verifParam("minstr", 0), verifParam("maxstr", 2)))
+}
+func vGenU64() uint64 { return verifU64("v") }
+func vGenU8() uint8   { return verifU8("v") }
 func vGenUUID() (u uuid.UUID) {
 	copy(u[:], verifBytes("uuid", 16))
 	return u
 }
-func vEqU64(a, b uint64) bool       { return a == b }
-func vEqU8(a, b uint8) bool         { return a == b }
-func vEqUUID(a, b uuid.UUID) bool   { return a == b }
-func vEqF64(a, b float64) bool      { return math.Float64bits(a) == math.Float64bits(b) }
+func vEqU64(a, b uint64) bool     { return a == b }
+func vEqU8(a, b uint8) bool       { return a == b }
+func vEqUUID(a, b uuid.UUID) bool { return a == b }
+func vEqF64(a, b float64) bool    { return math.Float64bits(a) == math.Float64bits(b) }
 
 func vGenSlice[T any](gen func() T) func() []T {
 	return func() []T {
@@ -106,7 +112,9 @@ var vPlainLeaves = []vEntry{
 	}},
 	{"Point", func() {
 		vOfLeaf("Point", false, func() ColumnOf[Point] { return new(ColPoint) },
-			func() Point { return Point{X: math.Float64frombits(verifU64("x")), Y: math.Float64frombits(verifU64("y"))} },
+			func() Point {
+				return Point{X: math.Float64frombits(verifU64("x")), Y: math.Float64frombits(verifU64("y"))}
+			},
 			func(a, b Point) bool { return vAnd(vEqF64(a.X, b.X), vEqF64(a.Y, b.Y)) })
 	}},
 	{"Enum8", func() {
@@ -230,7 +238,17 @@ var vComposites = []vEntry{
 	}},
 	{"Map(String,UInt64)", func() { vMapRoundTrip() }},
 	{"Tuple(UInt64,String)", func() { vTupleRoundTrip() }},
+	// temporal columns through their time.Time API (Append / AppendArr / Row), plain and inside an array
+	{"DateTime(time.Time)", func() {
+		vOfLeaf("DateTime", true, func() ColumnOf[time.Time] { return new(ColDateTime) }, vGenTime, vEqTime)
+	}},
+	{"Array(DateTime)", func() {
+		vOfLeaf("Array(DateTime)", true, func() ColumnOf[[]time.Time] { return new(ColDateTime).Array() }, vGenSlice(vGenTime), vEqSlice(vEqTime))
+	}},
 }
+
+func vGenTime() time.Time         { return time.Unix(int64(verifU32("t")), 0).UTC() }
+func vEqTime(a, b time.Time) bool { return a.Unix() == b.Unix() }
 
 // Map via AppendKV / RowKV (Go map iteration order is outside the claim).
 func vMapRoundTrip() {
